@@ -1650,7 +1650,7 @@ def context_item_pass(run: Run, cases: list, groups: int) -> None:
 
 def correspond(run: Run) -> None:
     rng = run.rng
-    n = run.scale(15000, 250000)
+    n = run.scale(12000, 220000)
     cases = list(CORPUS) + [gen_case(rng) for _ in range(n)]
     run.stats.rule = ('one case = one function call (op, arguments); strings over small random alphabets drawn from '
                       'ASCII, XML and non-XML whitespace, astral, combining, BMP-edge, non-XML (NUL, surrogates) code '
@@ -1660,11 +1660,11 @@ def correspond(run: Run) -> None:
                       'distinct = distinct driver request lines with a non-empty argument')
     for i in range(0, len(cases), 25000):
         compare(run, cases[i:i + 25000])
-    law_check(run, cases[:run.scale(2500, 40000)])
-    history_pass(run, cases, run.scale(400, 6000))
-    function_items_pass(run, cases, run.scale(150, 2000))
-    nodeset_pass(run, cases, run.scale(150, 2000))
-    context_item_pass(run, cases, run.scale(40, 700))
+    law_check(run, cases[:run.scale(1500, 30000)])
+    history_pass(run, cases, run.scale(300, 5000))
+    function_items_pass(run, cases, run.scale(100, 1500))
+    nodeset_pass(run, cases, run.scale(100, 1500))
+    context_item_pass(run, cases, run.scale(30, 500))
 
 
 def search(run: Run):
